@@ -20,6 +20,7 @@ package metrics
 import (
 	"bytes"
 	"sort"
+	"strings"
 
 	jp "github.com/buger/jsonparser"
 	"github.com/cespare/xxhash"
@@ -132,6 +133,26 @@ func (th *TagsHolder) GetTSID(mName []byte) (uint64, error) {
 
 func (th *TagsHolder) GetEntries() []tagEntry {
 	return th.entries[:th.idx]
+}
+
+const maxTagKeyLength = 255
+
+// Each tag key becomes the name of its tags tree file, so it has to be a
+// single file name below the tags tree directory.
+func IsValidTagKey(key string) bool {
+	if key == "" || key == "." || key == ".." || len(key) > maxTagKeyLength {
+		return false
+	}
+	return !strings.ContainsAny(key, "/\x00")
+}
+
+func (th *TagsHolder) firstInvalidTagKey() (string, bool) {
+	for _, entry := range th.GetEntries() {
+		if !IsValidTagKey(entry.tagKey) {
+			return entry.tagKey, true
+		}
+	}
+	return "", false
 }
 
 func (th *TagsHolder) String() string {
